@@ -379,6 +379,10 @@ pub fn gen_replicas(prop: &str, r: &mut Prng, seed: u64, run: u64, thorough: boo
             s.defaults = if prop == "C19" { true } else { std && !r.chance(1, 5) };
             s.alt_names = matches!(prop, "C02" | "C10") && r.chance(1, 3);
         }
+        if matches!(p, PathKind::Text | PathKind::TextTransitive) {
+            // one text replica in eight: hp.obo without a header block (derived, not drawn: the other draws keep their values)
+            s.text.no_obo_header = mix2(s.text.ign_seed, 0x0B0) % 8 == 0;
+        }
         replicas.push(s);
     }
     if !huge && !replicas.iter().any(|x| x.uses_text()) && r.chance(1, 3) {
@@ -481,8 +485,13 @@ pub fn exec_replicas(ctx: &mut Ctx, s: &Scenario) -> Outcome {
         match &b {
             Built::Ok(o) => {
                 out.ontologies += 1;
-                let got = observe(o);
+                let mut got = observe(o);
                 out.mixin(digest(&got));
+                if spec.omits_version() {
+                    // no data-version anywhere in the files: the release version is not stated by the property
+                    ctx.counters.add("probe.text_without_data_version", 1);
+                    got.version = format!("{:0>4}-{:0>2}-{:0>2}", pf.version.0, pf.version.1, pf.version.2);
+                }
                 if s.mode == "size-threshold" {
                     ctx.counters.add("probe.size_threshold_ontologies", 1);
                 }
